@@ -137,6 +137,7 @@ PROPS = {
             {"test": "TestC05B", "quick": 300, "thorough": 6000, "shards_thorough": 14},
             {"test": "TestC03R", "quick": 10000, "thorough": 200000, "shards_thorough": 14},
             {"test": "TestC10Adapters", "module": "binance", "pkg": "./checks", "quick": 50, "thorough": 1600, "shards_thorough": 8},
+            {"test": "TestC10OwnPins", "module": "psown", "pkg": "./checks", "quick": 3000, "thorough": 200000, "shards_thorough": 8},
         ],
         "rule": "Structure-aware hostile input. T1/T2: frames captured from a fault-free run of the configuration under test (loud / silent; BLS, PS, "
                 "scripted backend; KeyGen, Sign) are truncated, extended, bit-flipped, spliced, replaced by hostile constants sitting on the decoders' "
@@ -151,7 +152,9 @@ PROPS = {
                 "altered inside a valid protobuf envelope (other type URL, other content, empty / truncated content), under the genuine sender, another "
                 "member or a non-member, singly or as bursts of up to 1100 copies, into a party that is initialised but not running, running, or "
                 "finished: ClassifyMsg/OnMsg return without panic within 20 s, the running call returns by its deadline, input from non-members "
-                "(below the queue capacity) leaves the session successful. Non-trivial = the input passed "
+                "(below the queue capacity) leaves the session successful. TestC10OwnPins: byte-level mutations of valid PS objects and DKG messages into "
+                "TPS.Sign / SetShareData / ClassifyMsg / OnMsg, Verifier.Init / Verify, Prover.Init / UnBlind with mpc/ps built against its OWN "
+                "pinned IBM/mathlib (point and scalar parsing differs between the pinned versions). Non-trivial = the input passed "
                 "the first validation step of its entry point (live topic and minimal length / outer ASN.1 decoder). Distinct = hash of case / input.",
         "assumptions": COMMON_ASSUME + ["explicit panics on local API misuse (rule 2 of DESIGN 2.10) are not inputs from the network and are not generated"],
     },
